@@ -307,6 +307,12 @@ def run_entry(world, entry, config=None, timeout_ms=120000, known=None, want_mod
             r = solver.check()
             nq += 1
             o['result'] = 'reachable' if r == z3.sat else ('UNREACHABLE' if r == z3.unsat else 'unknown')
+            if r == z3.sat and ob.name == 'end' and 'witness' not in res:
+                # a concrete input that reaches the end of the entry: used for the native differential run
+                try:
+                    res['witness'] = model_to_json(ex2, solver.model(), cfg)
+                except Exception:
+                    pass
             o['solve_s'] = round(time.time() - t1, 3)
             tsolve += time.time() - t1
             res['obligations'].append(o)
@@ -543,6 +549,38 @@ class Check:
             if len(samples) < 6:
                 samples.append({'entry': r['entry'].rsplit('.', 1)[-1], 'config': r.get('config'),
                                 'obligations': [{k: o.get(k) for k in ('kind', 'name', 'pos', 'result', 'solve_s')} for o in r['obligations'][:12]]})
+        # differential run: a witness input of a few entries whose obligations all hold is executed natively; the native run
+        # must agree (no assertion fails, no panic). A disagreement means the encoding is wrong: inconclusive, never a verdict.
+        smoke_n = int(os.environ.get('VERIF_SMOKE_N', '2'))
+        done = {}
+        os.makedirs(os.path.join(VERIF, 'replays', self.prop), exist_ok=True)
+        smoke_log = []
+        for r in self.results:
+            if smoke_n <= 0:
+                break
+            if r.get('status') != 'ok' or 'witness' not in r:
+                continue
+            if any(o['result'] not in ('holds', 'trivial', 'reachable') for o in r['obligations']):
+                continue
+            bkey = (r.get('build', 0), r['entry'])
+            if done.get(bkey) or sum(1 for k in done if k[0] == bkey[0]) >= smoke_n:
+                continue
+            done[bkey] = True
+            short = r['entry'].rsplit('.', 1)[-1]
+            mf = os.path.join(VERIF, 'replays', self.prop, 'witness_%s.json' % short)
+            w = dict(r['witness'])
+            w['entry'] = short
+            json.dump(w, open(mf, 'w'))
+            rp = self.builds[r.get('build', 0)].replay(r['pkg'], short, mf)
+            if rp.get('error') == 'timeout' or rp.get('exited'):
+                smoke_log.append('%s: native run not completed (%s)' % (short, rp.get('error') or 'exited'))
+            elif 'error' in rp:
+                inconclusive.append('native differential run of %s could not run: %s %s' % (short, rp['error'], rp.get('raw', '')[-400:]))
+            elif rp.get('failures') or rp.get('panic') or rp.get('assumeFailed'):
+                inconclusive.append('native differential run of %s disagrees with the encoding: failures=%s panic=%s assumeFailed=%s' % (short, rp.get('failures'), rp.get('panic'), rp.get('assumeFailed')))
+            else:
+                smoke_log.append('%s: native run agrees' % short)
+        self.notes.append('native differential runs: ' + ('; '.join(smoke_log) or 'none'))
         # replay violations
         confirmed = []
         os.makedirs(os.path.join(VERIF, 'replays', self.prop), exist_ok=True)
